@@ -24,8 +24,8 @@ func init() {
 			"a write is an assignment, ++/--, delete/clear, or a mutating method of a sync/atomic/bytes value rooted at the variable",
 		},
 		Rules: []RuleDef{
-			{Name: "C11-GLOBAL", Floor: 9, Doc: "no unsynchronised package-level state is written on the request path", Run: c11Run},
-			{Name: "C11-CTX", Floor: 3, Doc: "each request entry point evaluates the handler in a context created for this request", Run: nop},
+			{Name: "C11-GLOBAL", Floor: 4, Doc: "no unsynchronised package-level state is written on the request path", Run: c11Run},
+			{Name: "C11-CTX", Floor: 2, Doc: "each request entry point evaluates the handler in a context created for this request", Run: nop},
 		},
 	})
 }
@@ -82,6 +82,10 @@ func c11Run(r *Run) {
 		return
 	}
 	info := hp.TypesInfo
+	declOfFn := map[types.Object]*ast.FuncDecl{}
+	for _, fd := range funcDecls(hp) {
+		declOfFn[info.Defs[fd.Name]] = fd
+	}
 	n := 0
 	// entry points: every function (or function literal) with parameters (http.ResponseWriter, *http.Request)
 	// that calls a script function (.Call(ctx))
@@ -152,16 +156,40 @@ func c11Run(r *Run) {
 		inside := ctxObj != nil && ctxObj.Pos() >= body.Pos() && ctxObj.Pos() <= body.End()
 		// request/response bound into the same context
 		bound := 0
-		ast.Inspect(body, func(m ast.Node) bool {
-			if c, ok := m.(*ast.CallExpr); ok {
+		var countBinds func(b *ast.BlockStmt, obj types.Object, depth int)
+		countBinds = func(b *ast.BlockStmt, obj types.Object, depth int) {
+			ast.Inspect(b, func(m ast.Node) bool {
+				c, ok := m.(*ast.CallExpr)
+				if !ok {
+					return true
+				}
 				if se, ok := ast.Unparen(c.Fun).(*ast.SelectorExpr); ok && se.Sel.Name == "SetVariableValue" {
-					if id, ok := ast.Unparen(se.X).(*ast.Ident); ok && info.Uses[id] == ctxObj {
+					if id, ok := ast.Unparen(se.X).(*ast.Ident); ok && info.Uses[id] == obj {
 						bound++
 					}
 				}
-			}
-			return true
-		})
+				// the context handed to a helper of this package that binds into it
+				if depth < 2 {
+					if h := declOfFn[calleeOf(info, c)]; h != nil {
+						for i, a := range c.Args {
+							if id, ok := ast.Unparen(a).(*ast.Ident); ok && info.Uses[id] == obj {
+								k := 0
+								for _, f := range h.Type.Params.List {
+									for _, nm := range f.Names {
+										if k == i {
+											countBinds(h.Body, info.Defs[nm], depth+1)
+										}
+										k++
+									}
+								}
+							}
+						}
+					}
+				}
+				return true
+			})
+		}
+		countBinds(body, ctxObj, 0)
 		switch {
 		case !fresh || !inside:
 			r.bad(key, call.Pos(), "the handler runs in a context that is not created by CreateContext inside this request: locals and parameters are shared between requests in flight")
